@@ -34,6 +34,8 @@ func init() {
 		bufferedCloseRechecksWritable(c, "C03.19")
 		closedByPacketListener(c, "C03.20")
 		eofWithCompleteFrame(c, "C03.21")
+		upgradeAttemptConcludedOnce(c, "C03.22")
+		deliveryOrderedWithClose(c, "C03.23")
 		pingBody(c, "C03.16") // a session that stopped being open still ends with a close event: the ping deadline is armed whatever became of the ping
 		baseTransportEffects(c, "C03.14")
 		variadicIndexSafety(c, "C03.15")
@@ -182,6 +184,12 @@ func c03StateWrites(c *core.Ctx) {
 				ok = ok1 && ok2 && inO && inN && stateOrder[o] < stateOrder[nw]
 				// the result must license the continuation: used as a branch condition
 				used := casResultBranches(u, cl)
+				if !used && u.Key == sockClose && o == "open" && nw == "closing" {
+					// the discarding Close: its effect (closeTransport(true)) is licensed by the test state ∈ {open, closing}
+					// that dominates it, for either outcome of the transition; the CompareAndSwap only publishes "closing"
+					// so that a transport switch under way closes the new transport (fix 22efbbe)
+					used = stateSetString(admittedStates(u, cl.Loc, sockStateKeys, "socket.readyState")) == "{open,closing}" && paramGuard(u, cl.Loc, 0)
+				}
 				c.Check(R2, keyf("%s/%s/result-licenses", u.Key, desc), cl.Pos(), used, "the CompareAndSwap result decides whether the transition's effects run")
 			case "Swap":
 				v, isC := core.ConstString(info, cl.Arg(0))
@@ -767,4 +775,15 @@ func c03WhoClosesTransport(c *core.Ctx) {
 		}
 	}
 	c.Need(R, "call sites of a transport's OnClose", n, 5)
+}
+
+// paramGuard: loc is on the true edge of a test of the unit's i-th (boolean) parameter.
+func paramGuard(u *core.Unit, loc core.Loc, i int) bool {
+	pn := paramName(u, i)
+	return u.Graph().GuardedBy(loc, func(x *core.Unit, br core.Branch) int {
+		if !br.IsCase && isLocal(x.Info(), br.Cond, pn) {
+			return 1
+		}
+		return 0
+	})
 }
